@@ -37,6 +37,10 @@ type History struct {
 	T10     int    `json:"t10"`
 	Hold    string `json:"hold"` // "never": a held draw is released by a Tick only; "zero": also by the next count
 	Ticker  bool   `json:"ticker"` // the box's own ticker runs (holds expired) while the threads run
+	// Lag: the node lags behind - the box knows the suffrage of the heights up to SufUpTo only (the
+	// suffrage of height h is what ballots of height h+1 and voteproofs of height h+1 are checked with)
+	Lag     bool   `json:"lag"`
+	SufUpTo int    `json:"sufupto"`
 	Ops     []Op   `json:"ops"`
 	Threads [][]Op `json:"threads"`
 	Tag     string `json:"tag"`
@@ -168,7 +172,7 @@ func (r *Runner) describeVP(vp base.Voteproof, finishedSC map[string]bool) M {
 		"id": vp.ID(), "h": modelHeight(p.Height()), "r": int(p.Round()), "s": stageNum(p.Stage()),
 		"res": vp.Result().String(), "sc": false, "mf": "", "mex": []string{},
 		"th10": int(vp.Threshold().Float64()*10 + 0.5), "kind": kindOf(vp),
-		"fwd": r.env.vpNames[vp.ID()], "rsc": false,
+		"fwd": r.env.NameOf(vp), "rsc": false,
 	}
 
 	if vp.Majority() != nil {
@@ -316,7 +320,7 @@ func merge(a, b M) M {
 }
 
 func evpDesc(s VPSpec) M {
-	return M{"name": s.Name, "h": s.H, "r": s.R, "s": s.S, "ex": nz(sorted(s.Ex))}
+	return M{"name": s.Name, "h": s.H, "r": s.R, "s": s.S, "ex": nz(sorted(s.Ex)), "idl": s.ID}
 }
 
 func (r *Runner) callArgs(o Op) M {
@@ -517,7 +521,13 @@ func (r *Runner) RunHistory(hist History) {
 
 	r.box = isaacstates.NewBallotbox(local.Address(),
 		func() base.Threshold { return th },
-		func(base.Height) (base.Suffrage, bool, error) { return suf, true, nil },
+		func(height base.Height) (base.Suffrage, bool, error) {
+			if hist.Lag && modelHeight(height) > hist.SufUpTo {
+				return nil, false, nil // not known yet
+			}
+
+			return suf, true, nil
+		},
 	)
 
 	r.box.SetCountAfter(holdOf(hist))
@@ -526,7 +536,12 @@ func (r *Runner) RunHistory(hist History) {
 	r.baseline = runtime.NumGoroutine()
 	r.lastPuts = putCounts()
 
-	r.out.Emit(M{"a": "Reset", "nodes": r.env.Names, "local": hist.Local, "t10": hist.T10, "hold": hist.Hold,
+	sufupto := 1 << 20
+	if hist.Lag {
+		sufupto = hist.SufUpTo
+	}
+
+	r.out.Emit(M{"a": "Reset", "nodes": r.env.Names, "local": hist.Local, "t10": hist.T10, "hold": hist.Hold, "sufupto": sufupto,
 		"conc": len(hist.Threads) > 0, "ticker": hist.Ticker && len(hist.Threads) > 0, "tag": hist.Tag, "newproc": !r.started})
 	r.started = true
 
